@@ -47,6 +47,7 @@ type KMSRetained struct {
 type KMSRegion struct {
 	w            *KMSWorld
 	Region, ARN  string
+	Alias        string // alias ARN, another name for the same key (see UseAliases)
 	master       []byte
 	FailGenerate bool
 	FailEncrypt  bool
@@ -77,13 +78,28 @@ func NewKMSWorld(regions []string) *KMSWorld {
 	return w
 }
 
-// ARNMap returns region -> ARN.
+// ARNMap returns region -> the key identifier an application configures (the alias ARN after UseAliases, else the key ARN).
 func (w *KMSWorld) ARNMap() map[string]string {
 	m := map[string]string{}
 	for r, k := range w.Regions {
 		m[r] = k.ARN
+		if k.Alias != "" {
+			m[r] = k.Alias
+		}
 	}
 	return m
+}
+
+// UseAliases gives every region's key an alias ARN and makes ARNMap return it. As with the real service a request
+// may name the key by either identifier, and every response names it by its key ARN.
+func (w *KMSWorld) UseAliases() {
+	for r, k := range w.Regions {
+		k.Alias = "arn:aws:kms:" + r + ":123456789012:alias/asherah-" + r
+	}
+}
+
+func (k *KMSRegion) names(keyID string) bool {
+	return keyID == k.ARN || (k.Alias != "" && keyID == k.Alias)
 }
 
 // Reset clears the call log and the retained buffers.
@@ -132,7 +148,7 @@ func (k *KMSRegion) generate(keyID string) (pt, ct []byte, err error) {
 		k.log("GenerateDataKey", false)
 		return nil, nil, k.w.failErr()
 	}
-	if keyID != k.ARN {
+	if !k.names(keyID) {
 		k.log("GenerateDataKey", false)
 		return nil, nil, errors.New("NotFoundException: key " + keyID + " does not exist in " + k.Region)
 	}
@@ -153,7 +169,7 @@ func (k *KMSRegion) encrypt(keyID string, pt []byte) ([]byte, error) {
 		k.log("Encrypt", false)
 		return nil, k.w.failErr()
 	}
-	if keyID != k.ARN {
+	if !k.names(keyID) {
 		k.log("Encrypt", false)
 		return nil, errors.New("NotFoundException: key " + keyID + " does not exist in " + k.Region)
 	}
@@ -205,7 +221,7 @@ func (c KMSV1) EncryptWithContext(cx awsv1.Context, in *kmsv1.EncryptInput, _ ..
 	if err != nil {
 		return nil, err
 	}
-	return &kmsv1.EncryptOutput{CiphertextBlob: ct, KeyId: in.KeyId}, nil
+	return &kmsv1.EncryptOutput{CiphertextBlob: ct, KeyId: awsv1.String(c.R.ARN)}, nil
 }
 
 func (c KMSV1) GenerateDataKeyWithContext(cx awsv1.Context, in *kmsv1.GenerateDataKeyInput, _ ...reqv1.Option) (*kmsv1.GenerateDataKeyOutput, error) {
@@ -247,7 +263,8 @@ func (c KMSV2) Encrypt(cx context.Context, in *kmsv2.EncryptInput, _ ...func(*km
 	if err != nil {
 		return nil, err
 	}
-	return &kmsv2.EncryptOutput{CiphertextBlob: ct, KeyId: in.KeyId}, nil
+	arn := c.R.ARN
+	return &kmsv2.EncryptOutput{CiphertextBlob: ct, KeyId: &arn}, nil
 }
 
 func (c KMSV2) GenerateDataKey(cx context.Context, in *kmsv2.GenerateDataKeyInput, _ ...func(*kmsv2.Options)) (*kmsv2.GenerateDataKeyOutput, error) {
